@@ -3,16 +3,22 @@
 if [ -n "$(git -C /repo status --porcelain)" ]; then echo "REPO DIRTY - refusing"; exit 3; fi
 cd /verif
 rc=0
+PROPLIST=${PROPS:-C01 C02 C03 C04 C05 C06 C07 C08 C09 C10 C11 C12 C13 C14 C15 C16 C17 C18 C19 C20}
 for d in ${ONLY:-selftest/benign/*.diff}; do
   id=$(basename $d .diff)
   if ! git -C /repo apply --check $PWD/$d 2>/dev/null; then echo "$id patch-does-not-apply"; rc=1; continue; fi
   git -C /repo apply $PWD/$d
   if ! (cd /repo && cargo check --offline -q -p poulpy-hal -p poulpy-core -p poulpy-cpu-ref -p poulpy-ckks -p poulpy-bin-fhe 2>/dev/null); then echo "$id DOES-NOT-COMPILE"; git -C /repo checkout -- .; rc=1; continue; fi
+  # the first check rebuilds the facts for the patched tree; the others then run in parallel on the cached facts
+  first=$(echo $PROPLIST | cut -d' ' -f1)
+  tmp=$(mktemp -d)
+  ./pzv check $first > $tmp/$first.out 2>&1
+  echo $PROPLIST | tr ' ' '\n' | tail -n +2 | xargs -P 8 -I{} sh -c "./pzv check {} > $tmp/{}.out 2>&1"
   alarms=""
-  for p in ${PROPS:-C02 C03 C04 C05 C06 C07 C08 C09 C10 C11 C12 C13 C15 C16 C17 C18 C19 C20}; do
-    out=$(./pzv check $p 2>&1)
-    if echo "$out" | grep -q "^VIOLATION"; then alarms="$alarms $p[$(echo "$out" | grep "rule=" | sed 's/.*rule=\([A-Z0-9-]*\).*/\1/' | sort -u | tr '\n' ' ')]"; fi
+  for p in $PROPLIST; do
+    if grep -q "^VIOLATION" $tmp/$p.out; then alarms="$alarms $p[$(grep "rule=" $tmp/$p.out | sed 's/.*rule=\([A-Z0-9-]*\).*/\1/' | sort -u | tr '\n' ' ')]"; fi
   done
+  rm -rf $tmp
   if [ -z "$alarms" ]; then echo "$id silent"; else echo "$id FALSE-ALARM:$alarms"; rc=1; fi
   git -C /repo checkout -- .
 done
